@@ -592,6 +592,32 @@ def slice_region(e, sym, root_pred):
     return None
 
 
+def table_rebuild(F):
+    """how Block::read_from rebuilds the in-memory offset table: one `index_offsets.extend(<iterator chain>)`, or one
+    `index_offsets.push(<conversion of the chunk>)` inside a loop over `<chain>.next()`.  Returns None or a dict
+    {form, site, convs: [(type, endianness, direction)], chunk: the chunks_exact call expr | None, reversed: bool}"""
+    b = F.body(A("block_read_from"))
+    ext = [s for s, c, t in calls(b, "Extend<T>>::extend") if is_self_field(b.arg_exprs(s)[0], "index_offsets")]
+    psh = [s for s, c, t in calls(b, "Vec::<T, A>::push") if is_self_field(b.arg_exprs(s)[0], "index_offsets")]
+    if len(ext) == 1 and not psh:
+        exprs, form, site = [b.arg_exprs(ext[0])[1]], "extend", ext[0]
+    elif len(psh) == 1 and not ext and b.in_loop(psh[0].bb):
+        v = b.arg_exprs(psh[0])[1]
+        exprs, form, site = [v], "loop", psh[0]
+    else:
+        return None
+    nodes = [x for e in exprs for x in e.walk()]
+    convs = []
+    for x in nodes:
+        if x.k in ("fn", "call"):
+            cv = int_conv(x.x.get("info") or {"path": x.x["path"]})
+            if cv:
+                convs.append(cv)
+    names = [x.x["path"].rsplit("::", 1)[-1] for x in nodes if x.k == "call"]
+    cx = [x for x in nodes if x.k == "call" and x.x["path"].endswith("chunks_exact")]
+    return {"form": form, "site": site, "convs": convs, "chunk": cx[0] if cx else None, "reversed": "rev" in names, "names": names}
+
+
 def footer_read(F):
     """how Block::read_from finds the footer, as regions of the decoded buffer over len = buffer.len() and
     count = the u32 read: which bytes hold the count, which the offset table, what the payload size is"""
@@ -636,13 +662,11 @@ def footer_read(F):
             for a_ in b.arg_exprs(s):
                 if any(x is fnrefs[0] for x in a_.walk()):
                     out["count"] = (conv_name(fnrefs[0].x.get("info") or {"path": fnrefs[0].x["path"]}), region_of(b.arg_exprs(s)[0]))
-    ext = [s for s, c, t in calls(b, "Extend<T>>::extend") if is_self_field(b.arg_exprs(s)[0], "index_offsets")]
-    if ext:
-        it = b.arg_exprs(ext[0])[1]
-        fns = [conv_name(x.x.get("info") or {"path": x.x["path"]}) for x in it.walk() if x.k == "fn" and int_conv(x.x.get("info") or {"path": x.x["path"]})]
-        cx = [x for x in it.walk() if x.k == "call" and x.x["path"].endswith("chunks_exact")]
-        names = [x.x["path"].rsplit("::", 1)[-1] for x in it.walk() if x.k == "call"]
-        out["table"] = (tuple(fns), fold(cx[0].a[1]) if cx else None, "rev" in names, region_of(cx[0].a[0]) if cx else ())
+    tr = table_rebuild(F)
+    if tr:
+        fns = sorted({(cv[0] + " " + cv[1]) for cv in tr["convs"] if cv[0] == "u64"})      # (narrower reads belong to the count inside the region arithmetic)
+        cx = tr["chunk"]
+        out["table"] = (tuple(fns), fold(cx.a[1]) if cx is not None else None, tr["reversed"], region_of(cx.a[0]) if cx is not None else ())
     ps = [(s, st) for s, st in b.sites() if s.i is not None and st["s"] == "assign" and st["pl"]["p"] and isinstance(st["pl"]["p"][-1], dict) and st["pl"]["p"][-1].get("name") == "payload_size"]
     if ps:
         e = b._expr_of_def((ps[-1][0], "assign", ps[-1][1]["rv"]))
